@@ -354,7 +354,15 @@ class C30(Check):
             form = "coefficients"
             expr = ["list"] + [rat(c) for c in p]
         desc = "%s(%s, x%s)" % (case["op"], engine.sx(expr), "" if dom[0] == "universal" else ", " + engine.sx(dom_recipe(dom)))
-        special = form != "factored" and special_branch(p)
+        # the polynomials that actually reach the closed-form formulas: solve() of a product solves the
+        # factors one by one, solve_poly / solve_poly_heuristics expand first
+        formula_inputs = [p]
+        if case["op"] == "solve" and "specs" in case and form == "factored":
+            formula_inputs = [sv.spec_factor(sp) for sp in specs]
+        elif case["op"] == "solve" and "specs" in case and form == "mixed":
+            h = max(1, len(specs) // 2)
+            formula_inputs = [specs_poly(specs[:h]), specs_poly(specs[h:])]
+        special = next((b for b in (special_branch(q) for q in formula_inputs) if b), None)
         if special:
             self.cls("poly:special:" + special)
         if special and dom[0] != "universal" and self.tag_active("poly_inner_solve_domain"):
@@ -496,8 +504,11 @@ class C30(Check):
         nred = sv.p_divmod(num, g)[0]
         cancelled = len(g) > 1
         alldens = den
-        single_fraction = not case["second"]
-        if self.tag_active("solve_mul_ignores_poles") and case["op"] == "solve" and single_fraction and cancelled:
+        # KF-C30-01 concerns expressions whose canonical form is a product (a single fraction, or a sum of
+        # fractions that the library merges into one term)
+        canon = B(self.run([["let", X], expr])[1])
+        is_product = canon is not None and canon[0] == "Mul"
+        if self.tag_active("solve_mul_ignores_poles") and case["op"] == "solve" and is_product and cancelled:
             self.skip("known:solve_mul_ignores_poles")
             return
         if (self.tag_active("rational_domain_complement_demorgan") and dom[0] != "universal"
